@@ -84,7 +84,8 @@ func (s *state) clone() *state {
 // whole pattern "*" is used.
 type ruleSelector struct {
 	path  map[string]*ruleSelector
-	rules []*annotations.HttpRule
+	rules []*annotations.HttpRule // selectors ending exactly here
+	wild  []*annotations.HttpRule // selectors ending here with ".*"
 }
 
 func (r *ruleSelector) write(w io.Writer, indent string) {
@@ -93,6 +94,9 @@ func (r *ruleSelector) write(w io.Writer, indent string) {
 		rs.write(w, indent+"  ")
 	}
 	fmt.Fprintf(w, "%srules: %v\n", indent, r.rules)
+	if len(r.wild) > 0 {
+		fmt.Fprintf(w, "%s*: %v\n", indent, r.wild)
+	}
 }
 
 // String returns the string representation of the ruleSelector.
@@ -103,10 +107,12 @@ func (r *ruleSelector) String() string {
 }
 
 func (r *ruleSelector) getRules(name string) (rules []*annotations.HttpRule) {
-	rules = append(rules, r.rules...)
 	if name == "" {
-		return rules
+		// Exact selectors only bind the element they name.
+		return append(rules, r.rules...)
 	}
+	// A trailing wildcard matches one or more further components.
+	rules = append(rules, r.wild...)
 	tag, name, _ := strings.Cut(name, ".")
 	if r = r.path[tag]; r != nil {
 		return append(rules, r.getRules(name)...)
@@ -126,7 +132,7 @@ func (r *ruleSelector) setRules(rules []*annotations.HttpRule) {
 				if name != "" {
 					panic(fmt.Errorf("invalid selector %q", rule.GetSelector()))
 				}
-				r.rules = append(r.rules, rule)
+				r.wild = append(r.wild, rule)
 			case "":
 				r.rules = append(r.rules, rule)
 			default:
